@@ -12,7 +12,7 @@ pub fn c05_q_word_vs_reference() {
     let d = Ps2Decoder::new();
     let got = d.add_word(w);
     let want = ref_frame(w);
-    println!("C05 word={:#06x} got={:?} want={:?}", w, got, want);
+    crate::show!("C05 word={:#06x} got={:?} want={:?}", w, got, want);
     assert!(got == want, "C05: add_word differs from the reference frame check");
     kani::cover!(got.is_ok());
     kani::cover!(got == Err(Error::BadStartBit));
@@ -31,7 +31,7 @@ pub fn c05_q_keyboard_word() {
     let calls = core::cell::Cell::new(0);
     let mut kb = Keyboard::new(ScancodeSet2::new(), crate::spy::Spy { tag: false, calls: &calls }, HandleControl::Ignore);
     let got = kb.add_word(w);
-    println!("C05 keyboard word={:#06x} got={:?}", w, got);
+    crate::show!("C05 keyboard word={:#06x} got={:?}", w, got);
     match ref_frame(w) {
         Err(e) => assert!(got == Err(e), "C05: Keyboard::add_word must report the framing error"),
         Ok(b) => {
@@ -49,7 +49,7 @@ pub fn c05_q_roundtrip() {
     let b: u8 = kani::any();
     let w = encode_frame(b);
     let got = Ps2Decoder::new().add_word(w);
-    println!("C05 roundtrip byte={:#04x} frame={:#06x} got={:?}", b, w, got);
+    crate::show!("C05 roundtrip byte={:#04x} frame={:#06x} got={:?}", b, w, got);
     assert!(got == Ok(b), "C05: valid frame does not round-trip its byte");
     kani::cover!(true);
 }
@@ -63,7 +63,7 @@ pub fn c05_q_single_bit_flip() {
     kani::assume(j < 11);
     let w = encode_frame(b) ^ (1u16 << j);
     let got = Ps2Decoder::new().add_word(w);
-    println!("C05 flip byte={:#04x} bit={} frame={:#06x} got={:?}", b, j, w, got);
+    crate::show!("C05 flip byte={:#04x} bit={} frame={:#06x} got={:?}", b, j, w, got);
     assert!(got.is_err(), "C05: single-bit corruption accepted");
     kani::cover!(true);
 }
@@ -79,7 +79,7 @@ pub fn c05_t_double_bit_flip() {
     kani::assume(j < 11 && k < 11 && j != k);
     let w = encode_frame(b) ^ (1u16 << j) ^ (1u16 << k);
     let got = Ps2Decoder::new().add_word(w);
-    println!("C05 flip2 byte={:#04x} bits={},{} frame={:#06x} got={:?}", b, j, k, w, got);
+    crate::show!("C05 flip2 byte={:#04x} bits={},{} frame={:#06x} got={:?}", b, j, k, w, got);
     let touches_frame = j == 0 || k == 0 || j == 10 || k == 10;
     if touches_frame {
         assert!(got.is_err(), "C05: corrupted start/stop bit accepted");
@@ -108,7 +108,7 @@ pub fn c06_q_serial_equals_word() {
     w |= (b as u16) << 10;
     let got = d.add_bit(b);
     let want = Ps2Decoder::new().add_word(w).map(Some);
-    println!("C06 frame={:#06x} got={:?} want={:?} after={:?}", w, got, want, d);
+    crate::show!("C06 frame={:#06x} got={:?} want={:?} after={:?}", w, got, want, d);
     assert!(got == want, "C06: 11th bit must return what whole-word decoding returns");
     assert!(d == Ps2Decoder::new(), "C06: decoder must be back in its initial state after any frame");
     kani::cover!(matches!(got, Ok(Some(_))));
@@ -123,7 +123,7 @@ pub fn c06_q_clear_resets() {
     kani::assume(k <= 10);
     let mut d = partial(k);
     d.clear();
-    println!("C06 clear after k={} bits: {:?}", k, d);
+    crate::show!("C06 clear after k={} bits: {:?}", k, d);
     assert!(d == Ps2Decoder::new(), "C06: clear() must restore the initial state");
     kani::cover!(k == 10);
 }
@@ -150,7 +150,7 @@ pub fn c06_q_partial_then_frame() {
         }
         i += 1;
     }
-    println!("C06 k={} frame={:#06x} got={:?}", k, w, last);
+    crate::show!("C06 k={} frame={:#06x} got={:?}", k, w, last);
     assert!(last == ref_frame(w).map(Some), "C06: frame after clear() decoded differently");
     kani::cover!(matches!(last, Ok(Some(_))));
 }
@@ -193,7 +193,7 @@ pub fn c06_t_two_frames() {
         }
         n += 1;
     }
-    println!("C06 two frames: second={:#06x} got={:?}", w, last);
+    crate::show!("C06 two frames: second={:#06x} got={:?}", w, last);
     assert!(last == ref_frame(w).map(Some), "C06: second frame depends on what preceded it");
     assert!(d == Ps2Decoder::new());
     kani::cover!(matches!(last, Ok(Some(_))) && do_clear);
@@ -228,7 +228,7 @@ pub fn c06_t_keyboard_two_frames() {
         }
         n += 1;
     }
-    println!("C06 keyboard: k={} frame={:#06x} got={:?}", k, w, last);
+    crate::show!("C06 keyboard: k={} frame={:#06x} got={:?}", k, w, last);
     match ref_frame(w) {
         Err(e) => assert!(last == Err(e)),
         Ok(b) => {
